@@ -37,14 +37,18 @@ type Contract struct {
 	Line      int
 	Used      bool
 	// templates
-	IsTemplate   bool
-	TemplRecv    string   // receiver type name
-	TemplPattern string   // function name glob
-	Except       []string
-	Lemmas       []string // ghost lemma calls instantiated before the postconditions are checked
-	LoopInv      []Clause // default invariants for every for-loop without own contract
-	LoopDec      []string // default decreases for every for-loop without own contract
-	FromTemplate bool
+	IsTemplate    bool
+	TemplRecv     string // receiver type name
+	TemplPattern  string // function name glob
+	Except        []string
+	Assumes       []Clause // free preconditions: assumed for the body, not required of callers (listed in the evidence)
+	AssumePre     []string // callees whose preconditions are assumed, not proved, at this function's call sites (listed in the evidence)
+	AssumeUnreach []string // explicit panic sites (by a fragment of their source text) assumed unreachable; listed in the evidence
+	GhostSets     []string // "name = expr": ghost counter updates performed by a call to this function
+	Lemmas        []string // ghost lemma calls instantiated before the postconditions are checked
+	LoopInv       []Clause // default invariants for every for-loop without own contract
+	LoopDec       []string // default decreases for every for-loop without own contract
+	FromTemplate  bool
 }
 
 func (c *Contract) ServesProp(p string) bool {
@@ -67,7 +71,7 @@ var clauseKeywords = map[string]bool{
 	"serves": true, "requires": true, "ensures": true, "modifies": true, "decreases": true,
 	"loop": true, "flag": true, "pure": true, "trusted": true, "inline": true, "opaque": true,
 	"nopanic": true, "maypanic": true, "unroll": true, "abstract": true, "allocates": true, "replaytext": true, "wrap": true, "overflow": true, "norac": true, "stages": true,
-	"lemma": true, "except": true, "loopinvariant": true, "loopdecreases": true, "notemplate": true,
+	"assume-unreachable": true, "ghostset": true, "assumes": true, "assumepre": true, "lemma": true, "except": true, "loopinvariant": true, "loopdecreases": true, "notemplate": true,
 }
 
 // parseContracts reads all /*@ ... @*/ blocks of a contracts file.
@@ -100,7 +104,7 @@ func parseContracts(pkgDir string) ([]*Contract, error) {
 	return out, nil
 }
 
-var templateRe = regexp.MustCompile(`^template\s+for\s+\(\s*(?:\w+\s+)?\*?\s*(\w+)\s*\)\s*([\w*?]+)\s*$`)
+var templateRe = regexp.MustCompile(`^template\s+for\s+\(\s*(?:\w+\s+)?\*?\s*([\w*?]+)\s*\)\s*([\w*?]+)\s*$`)
 
 var targetRe = regexp.MustCompile(`^func\s*(?:\(\s*(?:\w+\s+)?\*?\s*([\w.]+)\s*\))?\s*([\w.\[\]"]+)\s*$`)
 
@@ -149,6 +153,18 @@ func parseBlock(body string) (*Contract, error) {
 			kw, rest = cl[:i], strings.TrimSpace(cl[i+1:])
 		}
 		switch kw {
+		case "assume-unreachable":
+			c.AssumeUnreach = append(c.AssumeUnreach, rest)
+		case "ghostset":
+			c.GhostSets = append(c.GhostSets, rest)
+		case "assumes":
+			c.Assumes = append(c.Assumes, mkClause(rest, len(c.Assumes)+1))
+		case "assumepre":
+			for _, e := range strings.Split(rest, ",") {
+				if e = strings.TrimSpace(e); e != "" {
+					c.AssumePre = append(c.AssumePre, e)
+				}
+			}
 		case "lemma":
 			c.Lemmas = append(c.Lemmas, rest)
 		case "except":
@@ -303,7 +319,7 @@ var wordRe = regexp.MustCompile(`[A-Za-z_][A-Za-z_0-9]*`)
 
 // specToGo rewrites a spec expression into a Go expression over marker functions.
 func specToGo(s string, resultName string) string {
-	s = strings.TrimSpace(s)
+	s = strings.TrimSpace(rewriteGhost(s))
 	for _, q := range []string{"forall", "exists"} {
 		if strings.HasPrefix(s, q+" ") {
 			rest := strings.TrimSpace(s[len(q):])
@@ -323,6 +339,14 @@ func specToGo(s string, resultName string) string {
 			hi := specToGo(rng[k+2:], resultName)
 			body := specToGo(rest[j+2:], resultName)
 			return fmt.Sprintf("__%s(int(%s), int(%s), func(%s int) bool { return %s })", q, lo, hi, v, body)
+		}
+	}
+	for _, q := range []string{"forall ", "exists "} {
+		for _, con := range []string{"&& ", "|| "} {
+			if i := indexTop(s, con+q); i > 0 {
+				// a quantifier extends to the end of the expression
+				return specToGo(s[:i], resultName) + " " + con + specToGo(s[i+len(con):], resultName)
+			}
 		}
 	}
 	if i := indexTop(s, "<==>"); i >= 0 {
@@ -416,6 +440,16 @@ func specToGo(s string, resultName string) string {
 					sb.WriteString("__samefn")
 				case w == "entry" && next == '(':
 					sb.WriteString("__entry")
+				case w == "ghost" && next == '(':
+					sb.WriteString("__ghost")
+				case w == "lastsent" && next == '(':
+					sb.WriteString("__lastsent")
+				case w == "sentcount" && next == '(':
+					sb.WriteString("__sentcount")
+				case w == "sameslice" && next == '(':
+					sb.WriteString("__samefn")
+				case w == "disjoint" && next == '(':
+					sb.WriteString("__disjoint")
 				case w == "rangeindex" && next == '(':
 					sb.WriteString("__rangeindex")
 				case w == "result":
@@ -452,7 +486,10 @@ func applyTemplates(contracts []*Contract, funcs []string) []*Contract {
 		t.Used = true
 		for _, fk := range funcs {
 			i := strings.Index(fk, ".")
-			if i < 0 || fk[:i] != t.TemplRecv {
+			if i < 0 {
+				continue
+			}
+			if ok, _ := filepath.Match(t.TemplRecv, fk[:i]); !ok {
 				continue
 			}
 			name := fk[i+1:]
